@@ -315,6 +315,12 @@ func (rg RadialGradient) Layout(width, height pr.Float) backend.GradientLayout {
 		if rg.repeating {
 			// Add vector lengths to first position until positive
 			vectorLength := positions[len(positions)-1] - positions[0]
+			if vectorLength == 0 {
+				// all the stops are at the same place : solid color
+				// see https://drafts.csswg.org/css-images-3/#repeating-gradients
+				color := gradientAverageColor(colors, positions)
+				return backend.GradientLayout{ScaleY: 1, GradientKind: backend.GradientKind{Kind: "solid"}, Colors: []parser.RGBA{color}}
+			}
 			offset := vectorLength * pr.Fl(1+math.Floor(float64(-positions[0]/vectorLength)))
 			for i, p := range positions {
 				positions[i] = p + offset
